@@ -51,6 +51,12 @@ func (m *Message) Encode(e packetEncoder) error {
 	return nil
 }
 
+// Validate returns an error if the Message cannot be encoded and thus cannot
+// be written to the log, e.g. because a header key is too long.
+func (m *Message) Validate() error {
+	return m.Encode(new(lenEncoder))
+}
+
 // crcField is used to perform a CRC32 check on a message.
 type crcField struct {
 	StartOffset int
